@@ -646,3 +646,190 @@ def _sep_contract():
 
 
 _sep_contract()
+
+
+# ------------------------------------------------------------------------------------ the shunting-yard step for stacks of ANY depth
+# The pop loop of Operator.ast under a loop specification (pyvc/loops.py): the stack is a sequence of symbolic length over the
+# universe of tokens the handlers push (the 18 operators, an opening parenthesis, a function token); inductive invariant
+#   stack = entry_stack[:k]; builder = entry_builder + reversed(entry_stack[k:]); every entry_stack[i], i >= k, is an operator of
+#   not lower Excel rank than the incoming one
+# with variant len(stack).  Entry, preservation and variant are discharged (kind S); the postcondition (kind P) is the step law for
+# every depth: exactly the maximal run of operators of not lower rank on top leaves the stack, in stack order, and the incoming
+# operator is pushed.  Ranks in the specification come from SPEC_RANK, never from the code.
+def _stack_universe():
+    from pyvc.loops import Universe
+    cls = lambda n: {',': 'formulas.tokens.operator:Separator', ' ': 'formulas.tokens.operator:Intersect'}.get(
+        n, 'formulas.tokens.operator:OperatorToken')
+    names = sorted(SPEC_RANK)
+    t = [(cls(n), {'attr': {'name': n}, 'source': ''}) for n in names]
+    t.append(('formulas.tokens.parenthesis:Parenthesis', {'attr': {'name': '(', 'start': '('}, 'source': ''}))
+    t.append(('formulas.tokens.function:Function', {'attr': {'name': 'SUM'}, 'source': ''}))
+    return Universe('tok', t), names
+
+
+_U, _UNAMES = _stack_universe()
+
+
+def _tok_rank(t):
+    from formulas.tokens.operator import Operator
+    return SPEC_RANK[t.attr['name']] if isinstance(t, Operator) else -1
+
+
+_rank_of = _U.table(_tok_rank, 'rank_of')
+_ident, _ident_at, _indices = _U.ident, _U.ident_at, _U.indices
+
+
+def lemma_operator_step_any(self, stack, builder):
+    tokens = [_PREV_OPERAND]
+    self.ast(tokens, stack, builder)
+    return None
+
+
+def _step_any_contract(name):
+    from pyvc.loops import ElemT, ObjSeqT, LoopSpec
+    from pyvc.spec import forall_int, implies
+    rank = SPEC_RANK[name]
+    label = 'Operator.ast[%s incoming; any stack]' % {' ': 'space'}.get(name, name)
+    c = Contract(lambda: lemma_operator_step_any,
+                 dict(self=ElemT(_U, _UNAMES.index(name)), stack=ObjSeqT(_U), builder=ObjSeqT(_U)),
+                 'C01', name=label, use=[], frame=('self', 'stack', 'builder'))
+    CONTRACTS.append(c)
+
+    def inv(stack, builder, entry):
+        n = len(entry['stack'])
+        b0 = len(entry['builder'])
+        k = len(stack)
+        return (0 <= k and k <= n and len(builder) == b0 + (n - k)
+                and forall_int(lambda i: implies(0 <= i and i < k, _ident_at(stack, i) == _ident_at(entry['stack'], i)),
+                               _indices(entry['stack']))
+                and forall_int(lambda i: implies(0 <= i and i < b0, _ident_at(builder, i) == _ident_at(entry['builder'], i)),
+                               _indices(entry['builder']))
+                and forall_int(lambda j: implies(0 <= j and j < n - k,
+                                                 _ident_at(builder, b0 + j) == _ident_at(entry['stack'], n - 1 - j)),
+                               _indices(entry['stack']))
+                and forall_int(lambda i: implies(k <= i and i < n, _rank_of(_ident_at(entry['stack'], i)) >= rank),
+                               _indices(entry['stack'])))
+
+    c.loop_specs[('while', 'Operator.ast', 0)] = LoopSpec(
+        'loop[Operator.ast pop loop]', inv, {'stack': 'len', 'builder': 'seq'}, variant=lambda stack: len(stack))
+
+    @c.ensures('for-every-depth-the-maximal-run-of-operators-of-not-lower-rank-leaves-the-stack-in-order-then-the-incoming-one-is-pushed', 'P')
+    def _(self, stack, builder, result, old):
+        n = len(old['stack'])
+        b0 = len(old['builder'])
+        m = len(stack) - 1
+        return (0 <= m and m <= n and _ident_at(stack, m) == _ident(self)
+                and forall_int(lambda i: implies(0 <= i and i < m, _ident_at(stack, i) == _ident_at(old['stack'], i)),
+                               _indices(old['stack']))
+                and len(builder) == b0 + (n - m)
+                and forall_int(lambda i: implies(0 <= i and i < b0, _ident_at(builder, i) == _ident_at(old['builder'], i)),
+                               _indices(old['builder']))
+                and forall_int(lambda j: implies(0 <= j and j < n - m,
+                                                 _ident_at(builder, b0 + j) == _ident_at(old['stack'], n - 1 - j)),
+                               _indices(old['stack']))
+                and forall_int(lambda i: implies(m <= i and i < n, _rank_of(_ident_at(old['stack'], i)) >= rank),
+                               _indices(old['stack']))
+                and (m == 0 or _rank_of(_ident_at(old['stack'], m - 1)) < rank))
+
+    @c.canary('canary:the-stack-is-never-popped')
+    def _(self, stack, builder, result, old):
+        return len(stack) == len(old['stack']) + 1
+    return c
+
+
+for _inc in _INCOMING:
+    if _inc != ',':          # a separator has its own handler (Separator.ast, below)
+        _step_any_contract(_inc)
+
+
+def _stack_candidates(self_kind, depth=3, extra=None):
+    """Concrete inputs for the replay of a refuted any-stack obligation: every stack of at most `depth` tokens over one
+    representative per precedence class, '(' and a function token."""
+    import copy
+    reps = [_UNAMES.index(n) for n in _CLASS_REPS] + [len(_UNAMES), len(_UNAMES) + 1]
+    nat = _U.natives()
+
+    def gen():
+        for d in range(depth + 1):
+            for combo in itertools.product(reps, repeat=d):
+                args = dict(self=copy.deepcopy(nat[self_kind]), stack=[copy.deepcopy(nat[k]) for k in combo], builder=[])
+                if extra:
+                    args.update(copy.deepcopy(extra))
+                yield args
+    return gen
+
+
+for _c in CONTRACTS:
+    if _c.name.startswith('Operator.ast[') and _c.name.endswith('; any stack]'):
+        _c.replay_candidates = _stack_candidates(_c.params['self'].kind)
+
+
+# ------------------------------------------------------------------------------------ Separator.ast for stacks of ANY depth
+# The flush loop of Separator.ast under a loop specification: everything above the nearest opening token (a token with a `start`
+# attribute: '(' - function and array tokens push one) is moved to the output in stack order; without one the separator is rejected.
+_has_start = _U.table(lambda t: 'start' in t.attr, 'has_start')
+
+
+def lemma_separator_any(self, stack, builder):
+    tokens = [_PREV_OPERAND]
+    self.ast(tokens, stack, builder)
+    return None
+
+
+def _separator_any_contract():
+    from pyvc.loops import ElemT, ObjSeqT, LoopSpec
+    from pyvc.spec import forall_int, implies
+    from formulas.errors import ParenthesesError
+    c = Contract(lambda: lemma_separator_any,
+                 dict(self=ElemT(_U, _UNAMES.index(',')), stack=ObjSeqT(_U), builder=ObjSeqT(_U)),
+                 'C01', name='Separator.ast[after an operand; any stack]', use=[], frame=('self', 'stack', 'builder'))
+    CONTRACTS.append(c)
+
+    def inv(stack, builder, entry):
+        n = len(entry['stack'])
+        b0 = len(entry['builder'])
+        k = len(stack)
+        return (0 <= k and k <= n and len(builder) == b0 + (n - k)
+                and forall_int(lambda i: implies(0 <= i and i < k, _ident_at(stack, i) == _ident_at(entry['stack'], i)),
+                               _indices(entry['stack']))
+                and forall_int(lambda i: implies(0 <= i and i < b0, _ident_at(builder, i) == _ident_at(entry['builder'], i)),
+                               _indices(entry['builder']))
+                and forall_int(lambda j: implies(0 <= j and j < n - k,
+                                                 _ident_at(builder, b0 + j) == _ident_at(entry['stack'], n - 1 - j)),
+                               _indices(entry['stack']))
+                and forall_int(lambda i: implies(k <= i and i < n, not _has_start(_ident_at(entry['stack'], i))),
+                               _indices(entry['stack'])))
+
+    c.loop_specs[('while', 'Separator.ast', 0)] = LoopSpec(
+        'loop[Separator.ast flush loop]', inv, {'stack': 'len', 'builder': 'seq'}, variant=lambda stack: len(stack))
+
+    @c.ensures('for-every-depth-exactly-the-tokens-above-the-nearest-opening-token-are-flushed-in-stack-order', 'P')
+    def _(self, stack, builder, result, old):
+        n = len(old['stack'])
+        b0 = len(old['builder'])
+        m = len(stack)
+        return (1 <= m and m <= n and _has_start(_ident_at(old['stack'], m - 1))
+                and forall_int(lambda i: implies(0 <= i and i < m, _ident_at(stack, i) == _ident_at(old['stack'], i)),
+                               _indices(old['stack']))
+                and len(builder) == b0 + (n - m)
+                and forall_int(lambda i: implies(0 <= i and i < b0, _ident_at(builder, i) == _ident_at(old['builder'], i)),
+                               _indices(old['builder']))
+                and forall_int(lambda j: implies(0 <= j and j < n - m,
+                                                 _ident_at(builder, b0 + j) == _ident_at(old['stack'], n - 1 - j)),
+                               _indices(old['stack']))
+                and forall_int(lambda i: implies(m <= i and i < n, not _has_start(_ident_at(old['stack'], i))),
+                               _indices(old['stack'])))
+
+    @c.raises(ParenthesesError, 'a-separator-is-rejected-only-when-no-opening-token-is-on-the-stack', 'P')
+    def _(self, stack, builder, exc, old):
+        n = len(old['stack'])
+        return forall_int(lambda i: implies(0 <= i and i < n, not _has_start(_ident_at(old['stack'], i))), _indices(old['stack']))
+
+    @c.canary('canary:nothing-is-ever-flushed')
+    def _(self, stack, builder, result, old):
+        return len(builder) == len(old['builder'])
+    c.replay_candidates = _stack_candidates(_UNAMES.index(','))
+    return c
+
+
+_separator_any_contract()
